@@ -11,6 +11,8 @@ execution stream) walks through
                               (rank < 0, NULL / primary handle, `p_xstream->rank == rank` in
                               xstream_change_rank, the plain read of num_xstreams in get_num);
                               the call completes here if it never takes the lock
+    joined                    (free only) the join part of ABT_xstream_free has completed: the target stream's
+                              work is done (state TERMINATED) and its native thread is parked
     tas old                   ABTD_spinlock_acquire: test_and_set on xstream_list_lock.val
     spinLoad v                  inner loop `while (ABTD_spinlock_is_locked(p_lock))`
     check                     the list scan done under the lock: "find an unused rank from 0"
@@ -43,6 +45,10 @@ The API contract that makes the calls well defined (hypotheses of `call`):
   * a non-NULL handle passed to set_rank / free denotes a live stream and is not used by another
     in-flight call (a stream freed or re-ranked while someone else operates on the same handle is
     a use-after-free / data race on `p_xstream->rank` in C, not an error return).
+`running` says which streams exist as executing entities: from the insertion of a created stream until the
+join part of its `ABT_xstream_free` has completed.  A free reaches the lock only through `joined`
+(pc `joining`), so the rank leaves the list only after the stream stopped; code that returns the rank
+before the join produces traces that are not runs (`Props.C17.Conc.conc_rejects_remove_before_join`).
 Allocation failures inside create (C18) are not modelled: a creation that got its rank completes.
 `hist` is a ghost field: the (call, result) pairs in the order of their linearisation steps.
 -/
@@ -56,6 +62,7 @@ abbrev G := ArgoVerif.Model.Rank.St
 inductive Pc
   | idle      -- not inside an API call
   | start     -- called, nothing done yet
+  | joining   -- (free) inside xstream_join: waiting for the target stream to stop
   | want      -- about to test_and_set the list lock
   | spin      -- test_and_set failed: inner read loop
   | locked    -- holds the lock, nothing done yet
@@ -68,6 +75,7 @@ deriving DecidableEq, Repr
 inductive Ev
   | call (a : Actor) (op : Op)
   | pre (a : Actor)
+  | joined (a : Actor)
   | tas (a : Actor) (old : Bool)
   | spinLoad (a : Actor) (v : Bool)
   | check (a : Actor)
@@ -85,6 +93,7 @@ structure St where
   op : Actor → Op               -- the call in flight
   loc : Actor → Int             -- local `rank` after the scan
   res : Actor → Out             -- decided result
+  running : Ptr → Bool          -- the stream executes work units / is being joined (not yet stopped)
   active : List Actor           -- ghost: actors inside a call
   hist : List (Op × Out)        -- ghost: linearisation order
 
@@ -127,7 +136,7 @@ def inCrit : Pc → Bool
 
 /-- the call has not taken effect yet -/
 def preLin : Pc → Bool
-  | .start | .want | .spin | .locked | .chkOk => true
+  | .start | .joining | .want | .spin | .locked | .chkOk => true
   | _ => false
 
 /-- the call has taken effect, its result is decided -/
@@ -136,7 +145,17 @@ def postLin : Pc → Bool
   | _ => false
 
 def wantsLock : Pc → Bool
-  | .want | .spin | .locked | .chkOk => true
+  | .joining | .want | .spin | .locked | .chkOk => true
+  | _ => false
+
+/-- after the argument checks: a free first joins the stream, everybody else goes for the lock -/
+def afterPre : Op → Pc
+  | .free _ => .joining
+  | _ => .want
+
+/-- between the completed join and the list removal -/
+def afterJoin : Pc → Bool
+  | .want | .spin | .locked => true
   | _ => false
 
 def setPc (s : St) (a : Actor) (p : Pc) : St := { s with pc := upd s.pc a p }
@@ -157,7 +176,16 @@ def stepPre (s : St) (a : Actor) : Option St :=
       match Rank.apiStep s.g (s.op a) with
       | some (g', o) => some (linearize s a g' o .done)
       | none => none
-    else some (setPc s a .want)
+    else some (setPc s a (afterPre (s.op a)))
+  else none
+
+/-- `xstream_join` inside `ABT_xstream_free` returns: the main scheduler has terminated, the stream stored
+TERMINATED and its native thread waits in `ABTD_xstream_context` -/
+def stepJoined (s : St) (a : Actor) : Option St :=
+  if s.pc a = .joining then
+    match s.op a with
+    | .free p => some { s with running := upd s.running p false, pc := upd s.pc a .want }
+    | _ => none
   else none
 
 def stepTas (s : St) (a : Actor) (old : Bool) : Option St :=
@@ -204,11 +232,11 @@ def stepInsert (s : St) (a : Actor) : Option St :=
     match s.op a with
     | .create p =>
       match insertAt s.g p (s.loc a) with
-      | some g' => some (linearize s a g' (.okRank (g'.rank p)) .mutated)
+      | some g' => some { linearize s a g' (.okRank (g'.rank p)) .mutated with running := upd s.running p true }
       | none => none
     | .createWithRank p _ =>
       match insertAt s.g p (s.loc a) with
-      | some g' => some (linearize s a g' (.okRank (g'.rank p)) .mutated)
+      | some g' => some { linearize s a g' (.okRank (g'.rank p)) .mutated with running := upd s.running p true }
       | none => none
     | _ => none
   else none
@@ -255,6 +283,7 @@ def stepRet (s : St) (a : Actor) (o : Out) : Option St :=
 def step (s : St) : Ev → Option St
   | .call a op => stepCall s a op
   | .pre a => stepPre s a
+  | .joined a => stepJoined s a
   | .tas a old => stepTas s a old
   | .spinLoad a v => stepSpinLoad s a v
   | .check a => stepCheck s a
@@ -267,7 +296,7 @@ def step (s : St) : Ev → Option St
 /-- after `ABT_init`: the primary stream (rank 0) is the only one, nobody inside a call -/
 def init : St :=
   { g := Rank.init, lock := none, pc := fun _ => .idle, op := fun _ => .getNum, loc := fun _ => 0,
-    res := fun _ => .ok, active := [], hist := [] }
+    res := fun _ => .ok, running := fun p => decide (p = primaryId), active := [], hist := [] }
 
 def machine : Machine St Ev := { init := init, step := step }
 
